@@ -489,6 +489,8 @@ func call(i *interpreter, caller *frame, callpos token.Pos, fn value, args []val
 			args[k] = unlazy(args[k])
 		}
 		return callBuiltin(caller, callpos, fn, args)
+	case *hostFunc:
+		return fn.f(args)
 	}
 	panic(fmt.Sprintf("cannot call %T", fn))
 }
